@@ -107,6 +107,7 @@ pub fn gen_cfg(prop: &str, rng: &mut Rng) -> GenCfg {
             c.kinds = vec![(Kind::Plain, 6), (Kind::NoEq, 1), (Kind::Multi, 1)];
             c.accumulate = true;
             c.accum_reqs = true;
+            c.neutral_acc = true;
             c.durabilities = rng.chance(1, 2);
             c.never = rng.chance(1, 4);
             c.makers = rng.chance(1, 3);
@@ -552,7 +553,21 @@ pub fn cyclic_case(o: &Opts, case_seed: u64) -> CaseReport {
     let log = runner.take_log();
     dump_log(&log);
     rep.counts.merge(&mon::basic_stats(&log));
-    if let Some((n, got)) = &mismatch {
+    let mixed = prog.nodes.iter().any(|x| matches!(x.kind, Kind::Plain | Kind::NoEq))
+        && prog.nodes.iter().any(|x| matches!(x.kind, Kind::Fix | Kind::FixJ | Kind::Fb));
+    if let (Some((_, got)), true) = (&mismatch, mixed) {
+        // cycles mixing recovering and non-recovering functions: see known findings F11 / F12
+        let sig = match got {
+            Outcome::Val(_) => Some("C14/provisional_memo_of_plain_participant_served_to_other_thread"),
+            Outcome::Panic(_, m) if crate::camp_conc::is_internal_cycle_assertion(m) => {
+                Some("C14/internal_panic_participant_without_outer_cycle")
+            }
+            _ => None,
+        };
+        if let (Some(sig), Some(m)) = (sig, rep.violations.last_mut()) {
+            m.push_str(&format!(" [sig:{sig}]"));
+        }
+    } else if let Some((n, got)) = &mismatch {
         if let Some(sig) = classify_cyc_mismatch(&prog, &runner.inp, &log, *n, got) {
             if let Some(m) = rep.violations.last_mut() {
                 m.push_str(&format!(" [sig:{sig}]"));
